@@ -262,7 +262,7 @@ type World struct {
 
 func NewWorld() *World {
 	return &World{byPtr: map[*clusters.EndpointInfo]*epRec{}, byAddr: map[string]*epRec{}, up: map[string]bool{}, answer: map[string]UpEnt{},
-		specDis: map[string]bool{}, specIn: map[string]bool{}, Timeout: 10 * time.Second,
+		specDis: map[string]bool{}, specIn: map[string]bool{}, Timeout: 20 * time.Second,
 		Entered: make(chan struct{}, 8), Release: make(chan struct{}, 8)}
 }
 
